@@ -27,7 +27,7 @@ func init() {
 	register(&Rule{ID: "R17.2", Props: []string{"C17"}, Floor: 20,
 		Doc: "write cone: heap-allocation sites only in the reasoned allow-list (constructors, pool New, amortised stack appends, error construction)",
 		Run: func(c *Ctx, r *R) { runR17(c, r, false) }})
-	register(&Rule{ID: "R17.3", Props: []string{"C17", "C18"}, Floor: 3,
+	register(&Rule{ID: "R17.3", Props: []string{"C17"}, Floor: 3,
 		Doc: "grown capacity of the pooled table stacks survives reset (truncate only; re-pointing only in the constructor)",
 		Run: runR17_3})
 }
